@@ -56,7 +56,7 @@ macro "wat_exec" : tactic => `(tactic|
     step_eq, step_ne, step_eqz, step_drop, step_unreachable, step_ret, step_if, step_block, call_enabled, call_alignment8,
     b2i_true_ne, wrap32_small, divS_pos, remS_pos, Option.map_some, Option.map_none, gl_cap, gl_base,
     List.take, List.reverse_cons, List.reverse_nil, List.nil_append, List.replicate, List.append_nil, List.getD_cons_zero,
-    List.cons_append, if_true, if_false, ite_true, ite_false, if_pos, if_neg, ne_eq, not_true_eq_false, not_false_eq_true,
+    List.cons_append, ite_true_nr, ite_false_nr, if_pos, if_neg, ne_eq, not_true_eq_false, not_false_eq_true,
     Int.natCast_eq_zero])
 
 /-- the regenerated `$heap_free_list.ptr_and_fixed_size` returns the head of the list the model's
@@ -65,9 +65,7 @@ theorem gen_ptr_and_fixed_size (c : Config) (f : Nat) (n : Nat) (hn : n ≤ 1073
     (hb : c.heapBase + 32 < 2147483648) (hcap : c.cap < 2147483648) :
     callFuel funcs (glOf c) (f + 40) "heap_free_list.ptr_and_fixed_size" [(n : Int)] =
       some [((c.heapBase + 8 * (ptrAndFixedSize c n).1 : Nat) : Int), (((ptrAndFixedSize c n).2 : Nat) : Int)] := by
-  simp only [callFuel, find_ptr, Option.bind_some, List.reverse_cons, List.reverse_nil, List.nil_append]
-  rw [step_call funcs _ (f + 39) "heap_free_list.ptr_and_fixed_size" f_heap_free_list_ptr_and_fixed_size _ find_ptr
-    (by simp [f_heap_free_list_ptr_and_fixed_size])]
+  rw [callFuel_run funcs _ (f + 39) "heap_free_list.ptr_and_fixed_size" f_heap_free_list_ptr_and_fixed_size _ find_ptr (by simp [f_heap_free_list_ptr_and_fixed_size])]
   simp only [f_heap_free_list_ptr_and_fixed_size]
   by_cases hc : c.cap = 0
   · wat_exec
@@ -101,8 +99,7 @@ theorem gen_alignment8 (g : String → Int) (f : Nat) (n : Nat) (h : n ≤ 10737
 theorem gen_is_fixed_size (c : Config) (f : Nat) (n : Nat) (hn : n ≤ 1073741824) (hcap : c.cap < 2147483648) :
     callFuel funcs (glOf c) (f + 20) "heap_is_fixed_size" [(n : Int)] =
       some [if c.cap ≠ 0 ∧ n ≤ 80 then 1 else 0] := by
-  simp only [callFuel, find_is_fixed_size, Option.bind_some, List.reverse_cons, List.reverse_nil, List.nil_append]
-  rw [step_call funcs _ (f + 19) "heap_is_fixed_size" f_heap_is_fixed_size _ find_is_fixed_size (by simp [f_heap_is_fixed_size])]
+  rw [callFuel_run funcs _ (f + 19) "heap_is_fixed_size" f_heap_is_fixed_size _ find_is_fixed_size (by simp [f_heap_is_fixed_size])]
   simp only [f_heap_is_fixed_size]
   by_cases hc : c.cap = 0
   · wat_exec
@@ -116,8 +113,7 @@ theorem gen_is_fixed_size (c : Config) (f : Nat) (n : Nat) (hn : n ≤ 107374182
 /-- `$heap_block.data`: the payload starts 8 bytes after the block header -/
 theorem gen_block_data (g : String → Int) (f : Nat) (p : Nat) (hp : p + 8 < 2147483648) :
     callFuel funcs g (f + 10) "heap_block.data" [(p : Int)] = some [((p + 8 : Nat) : Int)] := by
-  simp only [callFuel, find_data, Option.bind_some, List.reverse_cons, List.reverse_nil, List.nil_append]
-  rw [step_call funcs _ (f + 9) "heap_block.data" f_heap_block_data _ find_data (by simp [f_heap_block_data])]
+  rw [callFuel_run funcs _ (f + 9) "heap_block.data" f_heap_block_data _ find_data (by simp [f_heap_block_data])]
   simp only [f_heap_block_data]
   wat_exec
   simp [callRet]
@@ -125,8 +121,7 @@ theorem gen_block_data (g : String → Int) (f : Nat) (p : Nat) (hp : p + 8 < 21
 /-- `$heap_assert_align8` returns on multiples of 8 ... -/
 theorem gen_assert_align8_ok (g : String → Int) (f : Nat) (p : Nat) (hp : p < 2147483648) (h : p % 8 = 0) :
     callFuel funcs g (f + 10) "heap_assert_align8" [(p : Int)] = some [] := by
-  simp only [callFuel, find_assert8, Option.bind_some, List.reverse_cons, List.reverse_nil, List.nil_append]
-  rw [step_call funcs _ (f + 9) "heap_assert_align8" f_heap_assert_align8 _ find_assert8 (by simp [f_heap_assert_align8])]
+  rw [callFuel_run funcs _ (f + 9) "heap_assert_align8" f_heap_assert_align8 _ find_assert8 (by simp [f_heap_assert_align8])]
   simp only [f_heap_assert_align8]
   have h' : (p : Int) % 8 = 0 := by omega
   wat_exec
@@ -135,8 +130,7 @@ theorem gen_assert_align8_ok (g : String → Int) (f : Nat) (p : Nat) (hp : p < 
 /-- ... and traps on every other value -/
 theorem gen_assert_align8_trap (g : String → Int) (f : Nat) (p : Nat) (hp : p < 2147483648) (h : p % 8 ≠ 0) :
     callFuel funcs g (f + 10) "heap_assert_align8" [(p : Int)] = none := by
-  simp only [callFuel, find_assert8, Option.bind_some, List.reverse_cons, List.reverse_nil, List.nil_append]
-  rw [step_call funcs _ (f + 9) "heap_assert_align8" f_heap_assert_align8 _ find_assert8 (by simp [f_heap_assert_align8])]
+  rw [callFuel_run funcs _ (f + 9) "heap_assert_align8" f_heap_assert_align8 _ find_assert8 (by simp [f_heap_assert_align8])]
   simp only [f_heap_assert_align8]
   have h' : ¬ (p : Int) % 8 = 0 := by omega
   wat_exec
@@ -145,8 +139,7 @@ theorem gen_assert_align8_trap (g : String → Int) (f : Nat) (p : Nat) (hp : p 
 /-- `$heap_assert_valid_ptr` (first check of `wa_free`) traps on 0 and on pointers that are not multiples of 4 -/
 theorem gen_assert_valid_ptr (g : String → Int) (f : Nat) (p : Nat) (hp : p < 2147483648) :
     callFuel funcs g (f + 14) "heap_assert_valid_ptr" [(p : Int)] = if 0 < p ∧ p % 4 = 0 then some [] else none := by
-  simp only [callFuel, find_valid, Option.bind_some, List.reverse_cons, List.reverse_nil, List.nil_append]
-  rw [step_call funcs _ (f + 13) "heap_assert_valid_ptr" f_heap_assert_valid_ptr _ find_valid (by simp [f_heap_assert_valid_ptr])]
+  rw [callFuel_run funcs _ (f + 13) "heap_assert_valid_ptr" f_heap_assert_valid_ptr _ find_valid (by simp [f_heap_assert_valid_ptr])]
   simp only [f_heap_assert_valid_ptr]
   by_cases h0 : 0 < p
   · by_cases h : p % 4 = 0
